@@ -1326,19 +1326,19 @@ class Models:
             fun_diff,
         )
         for i in range(self.m_nonlinear_ub):
-            ill_conditioned = ill_conditioned or self._cub[i].update(
+            ill_conditioned = self._cub[i].update(
                 self.interpolation,
                 k_new,
                 dir_old,
                 cub_diff[:, i],
-            )
+            ) or ill_conditioned
         for i in range(self.m_nonlinear_eq):
-            ill_conditioned = ill_conditioned or self._ceq[i].update(
+            ill_conditioned = self._ceq[i].update(
                 self.interpolation,
                 k_new,
                 dir_old,
                 ceq_diff[:, i],
-            )
+            ) or ill_conditioned
         if self._debug:
             self._check_interpolation_conditions()
         return ill_conditioned
